@@ -56,6 +56,24 @@ fn run_case(_kind: &str, idx: u64, rng: &mut Rng, mon: &mut Mon, _tier: Tier) {
         from[j] -= rng.logu(0.05, 3.0);
         to[j] += rng.logu(0.05, 3.0);
     }
+    // a third of the cells: one joint has a forbidden arc of 0.5..2 rad opposite to its current value, written
+    // as the complementary range (usually wrap-around, from > to), and its replacement values are given on
+    // another turn / across the seam (legal as angles although the plain mean with the current value is not)
+    if !illegal_initial && rng.bool(0.33) {
+        let j = rng.usize(6);
+        let w = rng.range(0.5, 2.0);
+        let wrap = |a: f64| (a + std::f64::consts::PI).rem_euclid(2.0 * std::f64::consts::PI) - std::f64::consts::PI;
+        let c = initial[j] + std::f64::consts::PI;
+        let (mut lf, mut lt) = ([-3.0; 6], [3.0; 6]);
+        lf[j] = wrap(c + w / 2.0);
+        lt[j] = wrap(c - w / 2.0);
+        if lf[j] != lt[j] && cell.constraints.compliant(&initial) {
+            cell.constraints = Constraints::new(lf, lt, 0.0);
+            to[j] = initial[j] + 2.0 * std::f64::consts::PI + rng.range(-0.9, 0.9) * w;
+            from[j] = initial[j] - 2.0 * std::f64::consts::PI + rng.range(-0.9, 0.9) * w;
+            mon.count(if lf[j] > lt[j] { "cells_with_a_wrap_around_range" } else { "cells_with_a_forbidden_arc" });
+        }
+    }
     // obstacles next to links of an offset posture (so that offsets collide) or far away
     let n_obs = rng.usize(4);
     for _ in 0..n_obs {
